@@ -303,7 +303,66 @@ class Episode(object):
     # ------------------------------------------------------------ running
     def setup(self):
         self.world = World(self.cfg)
-        self.world.build()
+        self.clients = []
+        self.pending_conn = False
+        self.lsocks = []
+        self.ondemand_markers = set(
+            wc.get('marker', wc['name']) for wc in self.cfg.get('watchers', [])
+            if wc.get('opts', {}).get('on_demand'))
+        if self.cfg.get('sockets'):
+            # on-demand watchers need real listening sockets: the arbiter
+            # select()s on them in its periodic check
+            import os
+            from circus.sockets import CircusSocket
+            d = self.world.scratch_dir()
+            for i, sc in enumerate(self.cfg['sockets']):
+                self.lsocks.append(CircusSocket(
+                    name=sc['name'], path=os.path.join(d, 's%d.sock' % i)))
+            ws = [self.world.make_watcher(wc) for wc in self.cfg['watchers']]
+            self.world.build(watchers=ws, sockets=self.lsocks)
+            self.world.kernel.on_spawn = self.accept_for
+        else:
+            self.world.build()
+
+    def op_connect(self, i, op):
+        """a client connects to a managed socket (socket event)"""
+        import socket as _socket
+
+        def fire():
+            if not self.lsocks:
+                return
+            s = self.lsocks[op.get('s', 0) % len(self.lsocks)]
+            try:
+                c = _socket.socket(_socket.AF_UNIX, _socket.SOCK_STREAM)
+                c.setblocking(False)
+                try:
+                    c.connect(s.path)
+                except BlockingIOError:
+                    pass
+                self.clients.append(c)
+                self.fired['socket_event'] += 1
+                self.pending_conn = True
+                self.socket_event(op)
+            except OSError:
+                pass
+        self.place(op.get('place'), fire, 'op')
+
+    def socket_event(self, op):
+        pass
+
+    def accept_for(self, p):
+        """the freshly spawned on-demand worker accepts what is queued"""
+        if p.marker not in self.ondemand_markers:
+            return
+        for s in self.lsocks:
+            while True:
+                try:
+                    s.setblocking(False)
+                    conn, _ = s.accept()
+                    conn.close()
+                except (BlockingIOError, OSError):
+                    break
+        self.pending_conn = False
 
     def run(self):
         try:
@@ -381,6 +440,17 @@ class Episode(object):
         if w.kernel.exec_failures:
             self.fired['exec_failure'] += w.kernel.exec_failures
         self.digest = w.digest() if s.log_enabled else None
+        import socket as _socket
+        for c in getattr(self, 'clients', []):
+            try:
+                c.close()
+            except Exception:
+                pass
+        for sk in getattr(self, 'lsocks', []):
+            try:
+                _socket.socket.close(sk)
+            except Exception:
+                pass
 
     # -------------------------------------------------------------- views
     def ask(self, cmd, props=None):
